@@ -1,14 +1,1298 @@
+// C14 (engine Q part): subscriptions deliver every matching write; hooks fire as registered.
+//
+// Breadth-first search over histories of subscribe / cancel / register hook /
+// cancel hook / put / delete / get / PushUpdate on the real database package
+// (hashmap, bbolt, and the runtime registry as injected database). Every
+// history is replayed on a fresh database and on a boring reference model
+// (list of subscriptions, list of hooks, map of stored records); after every
+// step the feeds are drained, the hook calls recorded by the harness hooks,
+// the operation result and the raw storage are compared with the model.
+// The writer-vs-Cancel interleaving clause is left to engine S.
 package main
 
 import (
+	"errors"
 	"fmt"
+	"os"
+	"path/filepath"
+	"sort"
+	"strings"
+	"sync"
+	"sync/atomic"
+	"time"
 
 	"github.com/safing/portbase/database"
+	"github.com/safing/portbase/database/query"
+	"github.com/safing/portbase/database/record"
 	_ "github.com/safing/portbase/database/storage/bbolt"
 	_ "github.com/safing/portbase/database/storage/hashmap"
 	"github.com/safing/portbase/runtime"
+
+	"verif/vlib"
 )
 
+// ---------- tables ----------
+
+type privDef struct {
+	Local, Internal bool
+	Name            string
+}
+
+var privs = []privDef{{true, true, "LI"}, {false, false, "--"}, {true, false, "L-"}, {false, true, "-I"}}
+
+type ifaceDef struct {
+	Local, Internal, MakeSecret bool
+	Name                        string
+}
+
+var ifaceDefs = []ifaceDef{
+	{true, true, false, "LI"},
+	{false, false, false, "--"},
+	{true, true, true, "LI+AlwaysMakeSecret"},
+	{true, false, false, "L-"},
+}
+
+type qDef struct {
+	Prefix string
+	Cond   int // 0 none, 1 V == 1, 2 not V == 1
+	Name   string
+}
+
+var qDefs = []qDef{
+	{"a/", 0, "a/"},
+	{"a/", 1, "a/ where V == 1"},
+	{"", 2, "* where not V == 1"},
+}
+
+const (
+	phPreGet  = 1
+	phPostGet = 2
+	phPrePut  = 4
+)
+
+var phaseNames = map[int]string{1: "preget", 2: "postget", 4: "preput", 7: "all"}
+var behNames = []string{"pass", "replace", "veto"}
+var flagNames = []string{"none", "secret", "crownjewel"}
+
+// the key under which the provider of the injected database refuses writes
+const failKey = "a/x"
+
+// ---------- operations ----------
+
+type op struct {
+	Kind  string `json:"kind"` // sub subq cancel hook hookq unhook put del get push
+	Q     int    `json:"q"`
+	Priv  int    `json:"priv"`
+	Ref   int    `json:"ref"`
+	Phase int    `json:"phase"`
+	Beh   int    `json:"beh"`
+	W     int    `json:"w"`
+	Key   string `json:"key"`
+	V     int    `json:"v"`
+	Flag  int    `json:"flag"`
+	Del   bool   `json:"del"`
+}
+
+func (o op) String() string {
+	switch o.Kind {
+	case "sub":
+		return fmt.Sprintf("sub(%s,%s)", qDefs[o.Q].Name, privs[o.Priv].Name)
+	case "subq":
+		return fmt.Sprintf("sub(query object of s%d,%s)", o.Ref, privs[o.Priv].Name)
+	case "cancel":
+		return fmt.Sprintf("cancel(s%d)", o.Ref)
+	case "hook":
+		return fmt.Sprintf("hook(%s,%s,%s)", qDefs[o.Q].Name, phaseNames[o.Phase], behNames[o.Beh])
+	case "hookq":
+		return fmt.Sprintf("hook(query object of h%d,%s,%s)", o.Ref, phaseNames[o.Phase], behNames[o.Beh])
+	case "unhook":
+		return fmt.Sprintf("cancelHook(h%d)", o.Ref)
+	case "put":
+		return fmt.Sprintf("put[%s](%s,V=%d,%s)", ifaceDefs[o.W].Name, o.Key, o.V, flagNames[o.Flag])
+	case "del":
+		return fmt.Sprintf("delete[%s](%s)", ifaceDefs[o.W].Name, o.Key)
+	case "get":
+		return fmt.Sprintf("get[%s](%s)", ifaceDefs[o.W].Name, o.Key)
+	case "push":
+		d := ""
+		if o.Del {
+			d = ",deleted"
+		}
+		return fmt.Sprintf("PushUpdate(%s,V=%d,%s%s)", o.Key, o.V, flagNames[o.Flag], d)
+	}
+	return "?" + o.Kind
+}
+
+func histString(h []op) string {
+	s := make([]string, len(h))
+	for i, o := range h {
+		s[i] = o.String()
+	}
+	return strings.Join(s, "; ")
+}
+
+// ---------- configuration of one exploration ----------
+
+type config struct {
+	Backend      string `json:"backend"` // hashmap bbolt injected
+	ShadowDelete bool   `json:"shadow_delete"`
+}
+
+func (c config) String() string { return fmt.Sprintf("%s/shadowDelete=%v", c.Backend, c.ShadowDelete) }
+
+type bounds struct {
+	nQ, nPriv, nFlag int
+	keys             []string
+	maxSubs          int
+	maxHooks         int
+	ifaces           []int // writer/reader interfaces with the full put alphabet: index 0; others get one put each
+	allPhaseHook     bool
+	pushDeleted      bool
+}
+
+type witness struct {
+	Config  config `json:"config"`
+	Seed    string `json:"seed"`
+	History []op   `json:"history"` // seed operations included
+	Text    string `json:"text"`
+}
+
+// ---------- reference model ----------
+
+type entry struct {
+	V       int64
+	HasData bool
+	Tag     string
+	Del     bool
+	Secret  bool
+	Crown   bool
+}
+
+// snap is what the harness observes of a record.
+type snap struct {
+	Key     string
+	V       int64
+	HasData bool
+	Tag     string
+	Del     bool
+	Secret  bool
+	Crown   bool
+}
+
+func (s snap) String() string {
+	f := ""
+	if s.Secret {
+		f += ",secret"
+	}
+	if s.Crown {
+		f += ",crownjewel"
+	}
+	if s.Del {
+		f += ",deleted"
+	}
+	if !s.HasData {
+		return fmt.Sprintf("{%s (no data)%s}", s.Key, f)
+	}
+	return fmt.Sprintf("{%s V=%d Tag=%q%s}", s.Key, s.V, s.Tag, f)
+}
+
+func (e entry) snap(key string) snap {
+	return snap{key, e.V, e.HasData, e.Tag, e.Del, e.Secret, e.Crown}
+}
+
+type mSub struct {
+	Q, Group        int
+	Local, Internal bool
+	Active          bool
+}
+
+type mHook struct {
+	Q, Group, Phase, Beh int
+	Active               bool
+}
+
+type call struct {
+	Hook  int
+	Phase int
+	Rec   snap // preget: only Key
+}
+
+func (c call) String() string {
+	if c.Phase == phPreGet {
+		return fmt.Sprintf("h%d.PreGet(%s)", c.Hook, c.Rec.Key)
+	}
+	n := "PostGet"
+	if c.Phase == phPrePut {
+		n = "PrePut"
+	}
+	return fmt.Sprintf("h%d.%s(%v)", c.Hook, n, c.Rec)
+}
+
+type model struct {
+	cfg    config
+	store  map[string]*entry
+	subs   []*mSub
+	hooks  []*mHook
+	groups int
+}
+
+func newModel(cfg config) *model { return &model{cfg: cfg, store: map[string]*entry{}} }
+
+// expectation of one step
+type expect struct {
+	res      string // "ok", "veto", "err" (any error that is not a hook's), "n/a"
+	vetoHook int
+	get      snap // for get with res ok
+	replaced bool // a replacing hook took part
+	calls    []call
+	deliver  map[int][]snap // subscription index -> records
+	closed   map[int]bool   // subscription index -> feed must be closed after the step
+}
+
+func matchKey(q int, key string) bool { return strings.HasPrefix(key, qDefs[q].Prefix) }
+
+func matchRec(q int, key string, e entry) bool {
+	if !matchKey(q, key) {
+		return false
+	}
+	switch qDefs[q].Cond {
+	case 0:
+		return true
+	case 1:
+		return e.HasData && e.V == 1
+	default:
+		return e.HasData && e.V != 1
+	}
+}
+
+func permitted(local, internal bool, e entry) bool {
+	return !(e.Crown && !local) && !(e.Secret && !internal)
+}
+
+func replaceTag(e entry, phase string, hook int) entry {
+	if !e.HasData {
+		// the harness hook builds its replacement from what it can read: no data reads as V=0
+		e.V = 0
+		e.HasData = true
+	}
+	e.Tag += fmt.Sprintf("%s%d", phase, hook)
+	return e
+}
+
+// getChain models Controller.Get followed by the permission check of the interface.
+func (m *model) getChain(x *expect, key string, rd ifaceDef) (entry, bool) {
+	for i, h := range m.hooks {
+		if !h.Active || h.Phase&phPreGet == 0 || !matchKey(h.Q, key) {
+			continue
+		}
+		x.calls = append(x.calls, call{i, phPreGet, snap{Key: key}})
+		if h.Beh == 2 {
+			x.res, x.vetoHook = "veto", i
+			return entry{}, false
+		}
+	}
+	e, ok := m.store[key]
+	if !ok {
+		x.res = "err"
+		return entry{}, false
+	}
+	cur := *e
+	for i, h := range m.hooks {
+		if !h.Active || h.Phase&phPostGet == 0 || !matchRec(h.Q, key, cur) {
+			continue
+		}
+		x.calls = append(x.calls, call{i, phPostGet, cur.snap(key)})
+		switch h.Beh {
+		case 2:
+			x.res, x.vetoHook = "veto", i
+			return entry{}, false
+		case 1:
+			cur = replaceTag(cur, "G", i)
+			x.replaced = true
+		}
+	}
+	if cur.Del {
+		x.res = "err"
+		return entry{}, false
+	}
+	if !permitted(rd.Local, rd.Internal, cur) {
+		x.res = "err"
+		return entry{}, false
+	}
+	return cur, true
+}
+
+// putChain models Controller.Put: pre-put hooks, storage, notification.
+func (m *model) putChain(x *expect, key string, cur entry) {
+	for i, h := range m.hooks {
+		if !h.Active || h.Phase&phPrePut == 0 || !matchRec(h.Q, key, cur) {
+			continue
+		}
+		x.calls = append(x.calls, call{i, phPrePut, cur.snap(key)})
+		switch h.Beh {
+		case 2:
+			x.res, x.vetoHook = "veto", i
+			return
+		case 1:
+			cur = replaceTag(cur, "P", i)
+			x.replaced = true
+		}
+	}
+	// storage
+	if m.cfg.Backend == "injected" {
+		if cur.Del {
+			x.res = "err" // injected storages do not implement Delete
+			return
+		}
+		if key == failKey {
+			x.res = "err" // the provider refuses this key
+			return
+		}
+	}
+	if cur.Del && !m.cfg.ShadowDelete {
+		delete(m.store, key)
+	} else {
+		st := cur
+		if st.Del && m.cfg.Backend == "bbolt" {
+			st.V, st.HasData, st.Tag = 0, false, "" // deleted records are serialised without data
+		}
+		m.store[key] = &st
+	}
+	m.notify(x, key, cur)
+	x.res = "ok"
+}
+
+func (m *model) notify(x *expect, key string, cur entry) {
+	for i, s := range m.subs {
+		if s.Active && permitted(s.Local, s.Internal, cur) && matchRec(s.Q, key, cur) {
+			x.deliver[i] = append(x.deliver[i], cur.snap(key))
+		}
+	}
+}
+
+func flagEntry(v int, flag int) entry {
+	return entry{V: int64(v), HasData: true, Secret: flag == 1, Crown: flag == 2}
+}
+
+// apply advances the model by one operation and returns what the real system must show.
+func (m *model) apply(o op) *expect {
+	x := &expect{res: "n/a", deliver: map[int][]snap{}, closed: map[int]bool{}}
+	switch o.Kind {
+	case "sub":
+		m.subs = append(m.subs, &mSub{o.Q, m.groups, privs[o.Priv].Local, privs[o.Priv].Internal, true})
+		m.groups++
+		x.res = "ok"
+	case "subq":
+		ref := m.subs[o.Ref]
+		m.subs = append(m.subs, &mSub{ref.Q, ref.Group, privs[o.Priv].Local, privs[o.Priv].Internal, true})
+		x.res = "ok"
+	case "cancel":
+		m.subs[o.Ref].Active = false
+		x.res = "ok"
+	case "hook":
+		m.hooks = append(m.hooks, &mHook{o.Q, m.groups, o.Phase, o.Beh, true})
+		m.groups++
+		x.res = "ok"
+	case "hookq":
+		ref := m.hooks[o.Ref]
+		m.hooks = append(m.hooks, &mHook{ref.Q, ref.Group, o.Phase, o.Beh, true})
+		x.res = "ok"
+	case "unhook":
+		m.hooks[o.Ref].Active = false
+		x.res = "ok"
+	case "get":
+		cur, ok := m.getChain(x, o.Key, ifaceDefs[o.W])
+		if ok {
+			x.res = "ok"
+			x.get = cur.snap(o.Key)
+		}
+	case "put":
+		w := ifaceDefs[o.W]
+		if !(w.Local && w.Internal) {
+			// the interface first looks at the stored record's metadata
+			if e, ok := m.store[o.Key]; ok && !e.Del && !permitted(w.Local, w.Internal, *e) {
+				x.res = "err"
+				break
+			}
+		}
+		cur := flagEntry(o.V, o.Flag)
+		if w.MakeSecret {
+			cur.Secret = true
+		}
+		m.putChain(x, o.Key, cur)
+	case "del":
+		w := ifaceDefs[o.W]
+		cur, ok := m.getChain(x, o.Key, w)
+		if !ok {
+			break
+		}
+		if w.MakeSecret {
+			cur.Secret = true
+		}
+		cur.Del = true
+		m.putChain(x, o.Key, cur)
+	case "push":
+		cur := flagEntry(o.V, o.Flag)
+		cur.Del = o.Del
+		m.notify(x, o.Key, cur)
+		x.res = "n/a"
+	}
+	for i, s := range m.subs {
+		x.closed[i] = !s.Active
+	}
+	return x
+}
+
+func (m *model) canon() string {
+	var sb strings.Builder
+	keys := make([]string, 0, len(m.store))
+	for k := range m.store {
+		keys = append(keys, k)
+	}
+	sort.Strings(keys)
+	for _, k := range keys {
+		fmt.Fprintf(&sb, "%v;", m.store[k].snap(k))
+	}
+	sb.WriteString("|S")
+	for _, s := range m.subs {
+		fmt.Fprintf(&sb, "%d.%d.%v%v%v;", s.Q, s.Group, s.Local, s.Internal, s.Active)
+	}
+	sb.WriteString("|H")
+	for _, h := range m.hooks {
+		fmt.Fprintf(&sb, "%d.%d.%d.%d.%v;", h.Q, h.Group, h.Phase, h.Beh, h.Active)
+	}
+	return sb.String()
+}
+
+// enabled returns the operations that may follow in the state of the model, simplest first.
+func (m *model) enabled(b *bounds) []op {
+	var out []op
+	keys := b.keys
+	w0 := b.ifaces[0]
+	// reads and writes
+	for _, k := range keys {
+		out = append(out, op{Kind: "get", W: w0, Key: k})
+	}
+	for _, k := range keys {
+		for v := 1; v >= 0; v-- {
+			for f := 0; f < b.nFlag; f++ {
+				out = append(out, op{Kind: "put", W: w0, Key: k, V: v, Flag: f})
+			}
+		}
+	}
+	for _, k := range keys {
+		out = append(out, op{Kind: "del", W: w0, Key: k})
+	}
+	for _, w := range b.ifaces[1:] {
+		out = append(out, op{Kind: "get", W: w, Key: keys[0]})
+		out = append(out, op{Kind: "put", W: w, Key: keys[0], V: 1})
+		out = append(out, op{Kind: "del", W: w, Key: keys[0]})
+	}
+	if m.cfg.Backend == "injected" {
+		for _, k := range keys {
+			if k == failKey {
+				continue
+			}
+			for v := 1; v >= 0; v-- {
+				for f := 0; f < b.nFlag; f++ {
+					out = append(out, op{Kind: "push", Key: k, V: v, Flag: f})
+				}
+			}
+			if b.pushDeleted {
+				out = append(out, op{Kind: "push", Key: k, V: 1, Del: true})
+			}
+		}
+	}
+	// subscriptions
+	if len(m.subs) < b.maxSubs {
+		for q := 0; q < b.nQ; q++ {
+			for p := 0; p < b.nPriv; p++ {
+				out = append(out, op{Kind: "sub", Q: q, Priv: p})
+			}
+		}
+		if len(m.subs) > 0 {
+			for p := 0; p < b.nPriv && p < 2; p++ {
+				out = append(out, op{Kind: "subq", Ref: 0, Priv: p})
+			}
+		}
+	}
+	for i := range m.subs {
+		out = append(out, op{Kind: "cancel", Ref: i})
+	}
+	// hooks
+	if len(m.hooks) < b.maxHooks {
+		for q := 0; q < b.nQ; q++ {
+			for _, ph := range []int{phPrePut, phPostGet, phPreGet} {
+				for beh := 0; beh < 3; beh++ {
+					if ph == phPreGet && beh == 1 {
+						continue // PreGet has no record to replace
+					}
+					out = append(out, op{Kind: "hook", Q: q, Phase: ph, Beh: beh})
+				}
+			}
+			if b.allPhaseHook {
+				out = append(out, op{Kind: "hook", Q: q, Phase: 7, Beh: 0})
+				out = append(out, op{Kind: "hook", Q: q, Phase: 7, Beh: 1})
+			}
+		}
+		if len(m.hooks) > 0 {
+			out = append(out, op{Kind: "hookq", Ref: 0, Phase: phPrePut, Beh: 0})
+			out = append(out, op{Kind: "hookq", Ref: 0, Phase: phPrePut, Beh: 2})
+			out = append(out, op{Kind: "hookq", Ref: 0, Phase: phPostGet, Beh: 1})
+		}
+	}
+	for i := range m.hooks {
+		out = append(out, op{Kind: "unhook", Ref: i})
+	}
+	return out
+}
+
+// ---------- the real system ----------
+
+type rec struct {
+	record.Base
+	sync.Mutex
+
+	V   int
+	Tag string
+}
+
+func snapOf(r record.Record) snap {
+	s := snap{Key: r.DatabaseKey()}
+	if m := r.Meta(); m != nil {
+		s.Del = m.IsDeleted()
+		s.Secret = !m.CheckPermission(true, false)
+		s.Crown = !m.CheckPermission(false, true)
+	}
+	if x, ok := r.(*rec); ok {
+		s.V, s.Tag, s.HasData = int64(x.V), x.Tag, true
+		return s
+	}
+	if acc := r.GetAccessor(r); acc != nil {
+		if v, ok := acc.GetInt("V"); ok {
+			s.V, s.HasData = v, true
+		}
+		s.Tag, _ = acc.GetString("Tag")
+	}
+	return s
+}
+
+// copyOf builds a new harness record with the content of r.
+func copyOf(r record.Record) *rec {
+	s := snapOf(r)
+	n := &rec{V: int(s.V), Tag: s.Tag}
+	n.SetKey(r.Key())
+	if m := r.Meta(); m != nil {
+		n.SetMeta(m.Duplicate())
+	}
+	return n
+}
+
+var hookErrs = []error{errors.New("veto of h0"), errors.New("veto of h1"), errors.New("veto of h2"), errors.New("veto of h3")}
+
+type hk struct {
+	w     *world
+	id    int
+	phase int
+	beh   int
+}
+
+func (h *hk) UsesPreGet() bool  { return h.phase&phPreGet != 0 }
+func (h *hk) UsesPostGet() bool { return h.phase&phPostGet != 0 }
+func (h *hk) UsesPrePut() bool  { return h.phase&phPrePut != 0 }
+
+func (h *hk) PreGet(dbKey string) error {
+	h.w.calls = append(h.w.calls, call{h.id, phPreGet, snap{Key: dbKey}})
+	if h.beh == 2 {
+		return hookErrs[h.id]
+	}
+	return nil
+}
+
+func (h *hk) on(phase int, tag string, r record.Record) (record.Record, error) {
+	h.w.calls = append(h.w.calls, call{h.id, phase, snapOf(r)})
+	switch h.beh {
+	case 2:
+		return nil, hookErrs[h.id]
+	case 1:
+		n := copyOf(r)
+		n.Tag += fmt.Sprintf("%s%d", tag, h.id)
+		return n, nil
+	}
+	return r, nil
+}
+
+func (h *hk) PostGet(r record.Record) (record.Record, error) { return h.on(phPostGet, "G", r) }
+func (h *hk) PrePut(r record.Record) (record.Record, error)  { return h.on(phPrePut, "P", r) }
+
+// provider is the value provider behind the injected (runtime registry) database.
+// Like the providers in portbase it hands out a new record object on every Get.
+type provider struct {
+	mu sync.Mutex
+	db map[string]*rec
+}
+
+func (p *provider) Set(r record.Record) (record.Record, error) {
+	if r.DatabaseKey() == failKey {
+		return nil, errors.New("provider: key is not writable")
+	}
+	p.mu.Lock()
+	defer p.mu.Unlock()
+	p.db[r.DatabaseKey()] = copyOf(r)
+	return r, nil
+}
+
+func (p *provider) Get(keyOrPrefix string) ([]record.Record, error) {
+	p.mu.Lock()
+	defer p.mu.Unlock()
+	var out []record.Record
+	for k, r := range p.db {
+		if k == keyOrPrefix {
+			out = append(out, copyOf(r))
+		}
+	}
+	return out, nil
+}
+
+type world struct {
+	cfg     config
+	name    string
+	ifaces  []*database.Interface
+	push    runtime.PushFunc
+	subs    []*database.Subscription
+	subQ    []*query.Query
+	hooks   []*database.RegisteredHook
+	hookObj []*hk
+	hookQ   []*query.Query
+	calls   []call
+}
+
+var (
+	rootDir  string
+	namePool chan string
+	nameSeq  int64
+)
+
+func initSystem() error {
+	base := os.TempDir()
+	if st, err := os.Stat("/dev/shm"); err == nil && st.IsDir() {
+		base = "/dev/shm"
+	}
+	d, err := os.MkdirTemp(base, "verif-c14-")
+	if err != nil {
+		return err
+	}
+	rootDir = d
+	namePool = make(chan string, 4096)
+	return database.InitializeWithPath(d)
+}
+
+func takeName() string {
+	select {
+	case n := <-namePool:
+		return n
+	default:
+		return fmt.Sprintf("h%06d", atomic.AddInt64(&nameSeq, 1))
+	}
+}
+
+func newWorld(cfg config) (*world, error) {
+	w := &world{cfg: cfg, name: takeName()}
+	st := cfg.Backend
+	if _, err := database.Register(&database.Database{Name: w.name, Description: "c14", StorageType: st, ShadowDelete: cfg.ShadowDelete}); err != nil {
+		return nil, err
+	}
+	if cfg.Backend == "injected" {
+		reg := runtime.NewRegistry()
+		if err := reg.InjectAsDatabase(w.name); err != nil {
+			return nil, err
+		}
+		p := &provider{db: map[string]*rec{}}
+		push, err := reg.Register("a/", p)
+		if err != nil {
+			return nil, err
+		}
+		if _, err := reg.Register("b/", p); err != nil {
+			return nil, err
+		}
+		w.push = push
+	}
+	for _, d := range ifaceDefs {
+		w.ifaces = append(w.ifaces, database.NewInterface(&database.Options{Local: d.Local, Internal: d.Internal, AlwaysMakeSecret: d.MakeSecret}))
+	}
+	return w, nil
+}
+
+func (w *world) close() {
+	database.VerifDrop(w.name)
+	if w.cfg.Backend == "bbolt" {
+		_ = os.Remove(filepath.Join(rootDir, "databases", w.name, "bbolt", "db.bbolt"))
+	}
+	select {
+	case namePool <- w.name:
+	default:
+	}
+}
+
+func (w *world) newQuery(q int) *query.Query {
+	d := qDefs[q]
+	x := query.New(w.name + ":" + d.Prefix)
+	switch d.Cond {
+	case 1:
+		x = x.Where(query.Where("V", query.Equals, 1))
+	case 2:
+		x = x.Where(query.Not(query.Where("V", query.Equals, 1)))
+	}
+	return x
+}
+
+func (w *world) newRec(key string, v, flag int, del bool) *rec {
+	r := &rec{V: v}
+	r.SetKey(w.name + ":" + key)
+	r.UpdateMeta()
+	switch flag {
+	case 1:
+		r.Meta().MakeSecret()
+	case 2:
+		r.Meta().MakeCrownJewel()
+	}
+	if del {
+		r.Meta().Delete()
+	}
+	return r
+}
+
+type observed struct {
+	err error
+	get snap
+}
+
+// do executes one operation on the real system.
+func (w *world) do(o op) (ob observed) {
+	switch o.Kind {
+	case "sub", "subq":
+		var q *query.Query
+		if o.Kind == "sub" {
+			q = w.newQuery(o.Q)
+		} else {
+			q = w.subQ[o.Ref]
+		}
+		s, err := database.NewInterface(&database.Options{Local: privs[o.Priv].Local, Internal: privs[o.Priv].Internal}).Subscribe(q)
+		ob.err = err
+		w.subs = append(w.subs, s)
+		w.subQ = append(w.subQ, q)
+	case "cancel":
+		ob.err = w.subs[o.Ref].Cancel()
+	case "hook", "hookq":
+		var q *query.Query
+		if o.Kind == "hook" {
+			q = w.newQuery(o.Q)
+		} else {
+			q = w.hookQ[o.Ref]
+		}
+		h := &hk{w: w, id: len(w.hooks), phase: o.Phase, beh: o.Beh}
+		rh, err := database.RegisterHook(q, h)
+		ob.err = err
+		w.hooks = append(w.hooks, rh)
+		w.hookObj = append(w.hookObj, h)
+		w.hookQ = append(w.hookQ, q)
+	case "unhook":
+		ob.err = w.hooks[o.Ref].Cancel()
+	case "get":
+		r, err := w.ifaces[o.W].Get(w.name + ":" + o.Key)
+		ob.err = err
+		if err == nil && r != nil {
+			ob.get = snapOf(r)
+		}
+	case "put":
+		ob.err = w.ifaces[o.W].Put(w.newRec(o.Key, o.V, o.Flag, false))
+	case "del":
+		ob.err = w.ifaces[o.W].Delete(w.name + ":" + o.Key)
+	case "push":
+		r := w.newRec(o.Key, o.V, o.Flag, o.Del)
+		r.Lock()
+		defer r.Unlock()
+		w.push(r)
+	}
+	return ob
+}
+
+// drain empties a feed without blocking.
+func drain(s *database.Subscription) (got []snap, closed bool) {
+	for {
+		select {
+		case r, ok := <-s.Feed:
+			if !ok {
+				return got, true
+			}
+			got = append(got, snapOf(r))
+		default:
+			return got, false
+		}
+	}
+}
+
+func (w *world) raw(keys []string) map[string]snap {
+	out := map[string]snap{}
+	for _, k := range keys {
+		r, err := database.VerifRawGet(w.name, k)
+		if err == nil && r != nil {
+			out[k] = snapOf(r)
+		}
+	}
+	return out
+}
+
+func rawString(keys []string, m map[string]snap) string {
+	var sb strings.Builder
+	for _, k := range keys {
+		if s, ok := m[k]; ok {
+			fmt.Fprintf(&sb, "%v;", s)
+		}
+	}
+	return sb.String()
+}
+
+// private state of the controller for the canonical key: which of the
+// harness's subscriptions and hooks are registered, in the controller's order.
+func (w *world) private() string {
+	var sb strings.Builder
+	sb.WriteString("s")
+	for _, s := range database.VerifSubscriptions(w.name) {
+		idx := -1
+		for i, x := range w.subs {
+			if x == s {
+				idx = i
+			}
+		}
+		fmt.Fprintf(&sb, "%d,", idx)
+	}
+	sb.WriteString("h")
+	for _, h := range database.VerifHooks(w.name) {
+		if x, ok := h.(*hk); ok {
+			fmt.Fprintf(&sb, "%d,", x.id)
+		}
+	}
+	return sb.String()
+}
+
+// ---------- running one history ----------
+
+type runResult struct {
+	key       string // canonical key of the reached state, "" after a violation
+	outcome   string
+	bad       bool
+	nontriv   bool
+	modelOnly *model
+}
+
+var allKeys = []string{"a/1", "a/2", "b/1", failKey}
+
+func snapsString(s []snap) string {
+	out := make([]string, len(s))
+	for i, x := range s {
+		out[i] = x.String()
+	}
+	return "[" + strings.Join(out, " ") + "]"
+}
+
+func callsString(s []call) string {
+	out := make([]string, len(s))
+	for i, x := range s {
+		out[i] = x.String()
+	}
+	return "[" + strings.Join(out, " ") + "]"
+}
+
+func sameSnaps(a, b []snap) bool {
+	if len(a) != len(b) {
+		return false
+	}
+	for i := range a {
+		if a[i] != b[i] {
+			return false
+		}
+	}
+	return true
+}
+
+// runHistory replays hist on a fresh database and on a fresh model and checks every step.
+func runHistory(c *vlib.Ctx, cfg config, seedName string, hist []op, verbose bool) runResult {
+	w, err := newWorld(cfg)
+	if err != nil {
+		c.EngineError("cannot set up database for %v: %v", cfg, err)
+		return runResult{bad: true, outcome: "engine-error"}
+	}
+	defer w.close()
+	m := newModel(cfg)
+	res := runResult{}
+	wit := func(step int) witness {
+		h := append([]op{}, hist[:step+1]...)
+		return witness{cfg, seedName, h, histString(h)}
+	}
+	for step, o := range hist {
+		before := w.raw(allKeys)
+		w.calls = nil
+		var ob observed
+		p, stack := vlib.Catch(func() { ob = w.do(o) })
+		where := fmt.Sprintf("%v, history: %s", cfg, histString(hist[:step+1]))
+		if p != nil {
+			c.Violate("no-panic", o.Kind, vlib.PanicSite(stack), fmt.Sprintf("%s: panic: %v", where, p), wit(step))
+			if verbose {
+				fmt.Printf("step %d %v: PANIC %v\n", step, o, p)
+			}
+			return runResult{bad: true, outcome: o.Kind + ":panic"}
+		}
+		x := m.apply(o)
+		after := w.raw(allKeys)
+		// feeds
+		nDeliv := 0
+		type feedObs struct {
+			got    []snap
+			closed bool
+		}
+		feeds := make([]feedObs, len(w.subs))
+		for i, s := range w.subs {
+			if s == nil {
+				continue
+			}
+			feeds[i].got, feeds[i].closed = drain(s)
+			nDeliv += len(feeds[i].got)
+		}
+		if verbose {
+			fmt.Printf("step %d %v: err=%v\n", step, o, ob.err)
+			if o.Kind == "get" && ob.err == nil {
+				fmt.Printf("    returned %v\n", ob.get)
+			}
+			fmt.Printf("    hook calls: %s (reference %s)\n", callsString(w.calls), callsString(x.calls))
+			for i := range w.subs {
+				fmt.Printf("    feed s%d: %s closed=%v (reference %s closed=%v)\n", i, snapsString(feeds[i].got), feeds[i].closed, snapsString(x.deliver[i]), x.closed[i])
+			}
+			fmt.Printf("    storage: %s\n", rawString(allKeys, after))
+		}
+		// 1. result of the operation
+		isHookErr := -1
+		for i, e := range hookErrs {
+			if ob.err != nil && errors.Is(ob.err, e) {
+				isHookErr = i
+			}
+		}
+		switch {
+		case x.res == "veto" && ob.err == nil:
+			c.Violate("veto-returns-hook-error", o.Kind, "ok-instead-of-veto", fmt.Sprintf("%s: h%d vetoes the operation, but it returned no error", where, x.vetoHook), wit(step))
+			res.bad = true
+		case x.res == "veto" && isHookErr != x.vetoHook:
+			c.Violate("veto-returns-hook-error", o.Kind, "other-error-instead-of-veto", fmt.Sprintf("%s: h%d vetoes the operation, but it returned %v", where, x.vetoHook, ob.err), wit(step))
+			res.bad = true
+		case x.res != "veto" && isHookErr >= 0:
+			c.Violate("veto-returns-hook-error", o.Kind, "veto-of-hook-that-must-not-run", fmt.Sprintf("%s: returned %v although no hook vetoes this operation", where, ob.err), wit(step))
+			res.bad = true
+		case x.res == "ok" && ob.err != nil, x.res == "err" && ob.err == nil:
+			if (o.Kind == "cancel" || o.Kind == "unhook" || o.Kind == "sub" || o.Kind == "subq" || o.Kind == "hook" || o.Kind == "hookq") && ob.err != nil {
+				c.Violate("subscribe-cancel-register-succeed", o.Kind, "error-instead-of-ok", fmt.Sprintf("%s: returned %v", where, ob.err), wit(step))
+				res.bad = true
+				break
+			}
+			// Outside this property (plain storage semantics, C02/C03): the reference store of this harness is out of step.
+			c.EngineError("reference store out of step with the implementation (not a C14 clause): %s: reference says %s, implementation returned err=%v", where, x.res, ob.err)
+			return runResult{bad: true, outcome: "engine-error"}
+		}
+		if res.bad {
+			return runResult{bad: true, outcome: o.Kind + ":result-mismatch"}
+		}
+		// 2. hook calls
+		if cs, xs := callsString(w.calls), callsString(x.calls); cs != xs {
+			disc := "wrong-calls"
+			switch {
+			case len(w.calls) < len(x.calls):
+				disc = "missing-call"
+			case len(w.calls) > len(x.calls):
+				disc = "unexpected-call"
+			}
+			c.Violate("hook-calls-as-registered", o.Kind, disc, fmt.Sprintf("%s: hooks were called %s, reference %s", where, cs, xs), wit(step))
+			return runResult{bad: true, outcome: o.Kind + ":hook-mismatch"}
+		}
+		// 3. feeds
+		for i := range w.subs {
+			f := feeds[i]
+			want := x.deliver[i]
+			if !sameSnaps(f.got, want) {
+				disc := "wrong-record"
+				switch {
+				case len(f.got) < len(want):
+					disc = "missing-delivery"
+				case len(want) == 0:
+					disc = "unexpected-delivery"
+				case len(f.got) > len(want):
+					disc = "duplicate-delivery"
+				}
+				c.Violate("feed-holds-exactly-the-matching-writes", o.Kind, disc, fmt.Sprintf("%s: feed of s%d received %s, reference %s", where, i, snapsString(f.got), snapsString(want)), wit(step))
+				res.bad = true
+			}
+			if f.closed != x.closed[i] {
+				disc := "open-after-cancel"
+				if f.closed {
+					disc = "closed-without-cancel"
+				}
+				c.Violate("feed-closed-exactly-after-cancel", o.Kind, disc, fmt.Sprintf("%s: feed of s%d closed=%v, reference closed=%v", where, i, f.closed, x.closed[i]), wit(step))
+				res.bad = true
+			}
+		}
+		if res.bad {
+			return runResult{bad: true, outcome: o.Kind + ":feed-mismatch"}
+		}
+		// 4. result of a get
+		if o.Kind == "get" && x.res == "ok" && ob.get != x.get {
+			if x.replaced {
+				c.Violate("replacement-is-returned", o.Kind, "wrong-record", fmt.Sprintf("%s: returned %v, reference %v", where, ob.get, x.get), wit(step))
+				return runResult{bad: true, outcome: o.Kind + ":get-mismatch"}
+			}
+			c.EngineError("reference store out of step with the implementation (not a C14 clause): %s: get returned %v, reference %v", where, ob.get, x.get)
+			return runResult{bad: true, outcome: "engine-error"}
+		}
+		// 5. storage
+		if x.res == "veto" {
+			if b, a := rawString(allKeys, before), rawString(allKeys, after); a != b {
+				c.Violate("veto-leaves-storage-unchanged", o.Kind, "storage-changed", fmt.Sprintf("%s: h%d vetoed, storage before %s after %s", where, x.vetoHook, b, a), wit(step))
+				return runResult{bad: true, outcome: o.Kind + ":veto-storage"}
+			}
+		}
+		var ms strings.Builder
+		for _, k := range allKeys {
+			if e, ok := m.store[k]; ok {
+				fmt.Fprintf(&ms, "%v;", e.snap(k))
+			}
+		}
+		if a := rawString(allKeys, after); a != ms.String() {
+			if x.replaced {
+				c.Violate("replacement-is-stored", o.Kind, "wrong-record", fmt.Sprintf("%s: storage holds %s, reference %s", where, a, ms.String()), wit(step))
+				return runResult{bad: true, outcome: o.Kind + ":store-mismatch"}
+			}
+			c.EngineError("reference store out of step with the implementation (not a C14 clause): %s: storage holds %s, reference %s", where, a, ms.String())
+			return runResult{bad: true, outcome: "engine-error"}
+		}
+		if step == len(hist)-1 {
+			r := x.res
+			if o.Kind == "push" {
+				r = "pushed"
+			}
+			res.outcome = fmt.Sprintf("%s:%s:deliveries=%d:hookcalls=%d", o.Kind, r, nDeliv, len(w.calls))
+			res.nontriv = nDeliv > 0 || len(w.calls) > 0 || o.Kind == "cancel" || o.Kind == "unhook"
+		}
+	}
+	if len(hist) == 0 {
+		res.outcome = "initial"
+	}
+	res.key = m.canon() + "#" + w.private() + "#" + rawString(allKeys, w.raw(allKeys))
+	res.modelOnly = m
+	return res
+}
+
+// ---------- seeds ----------
+
+type seed struct {
+	name string
+	ops  []op
+}
+
+func seeds(cfg config) []seed {
+	return []seed{
+		{"empty", nil},
+		{"stored(a/1 V=1; b/1 V=1)", []op{{Kind: "put", Key: "a/1", V: 1}, {Kind: "put", Key: "b/1", V: 1}}},
+		{"stored(a/1 V=1 secret)+sub(a/,--)", []op{{Kind: "put", Key: "a/1", V: 1, Flag: 1}, {Kind: "sub", Q: 0, Priv: 1}}},
+		{"stored(a/1 V=1)+hook(a/ where V == 1,preput,pass)+sub(a/,LI)", []op{{Kind: "put", Key: "a/1", V: 1}, {Kind: "hook", Q: 1, Phase: phPrePut, Beh: 0}, {Kind: "sub", Q: 0, Priv: 0}}},
+	}
+}
+
+// ---------- main ----------
+
+type plan struct {
+	cfg   config
+	depth int
+	b     *bounds
+}
+
+func plans(c *vlib.Ctx) []plan {
+	quick := c.Quick()
+	mk := func(keys []string, nQ, nPriv, nFlag, maxSubs, maxHooks int, ifaces []int, all, pd bool) *bounds {
+		return &bounds{nQ: nQ, nPriv: nPriv, nFlag: nFlag, keys: keys, maxSubs: maxSubs, maxHooks: maxHooks, ifaces: ifaces, allPhaseHook: all, pushDeleted: pd}
+	}
+	if quick {
+		small := mk([]string{"a/1", "b/1"}, 2, 2, 2, 2, 2, []int{0, 1}, false, false)
+		inj := mk([]string{"a/1", "b/1", failKey}, 2, 2, 2, 2, 2, []int{0, 1}, false, false)
+		return []plan{
+			{config{"hashmap", false}, 4, small},
+			{config{"hashmap", true}, 4, small},
+			{config{"bbolt", false}, 3, small},
+			{config{"bbolt", true}, 3, small},
+			{config{"injected", false}, 3, inj},
+		}
+	}
+	big := mk([]string{"a/1", "b/1", "a/2"}, 3, 4, 3, 3, 2, []int{0, 1, 2, 3}, true, true)
+	small := mk([]string{"a/1", "b/1"}, 2, 2, 2, 2, 2, []int{0, 1}, false, false)
+	inj := mk([]string{"a/1", "b/1", failKey}, 3, 4, 3, 3, 2, []int{0, 1, 2, 3}, true, true)
+	return []plan{
+		{config{"hashmap", false}, 4, big},
+		{config{"hashmap", true}, 4, big},
+		{config{"hashmap", false}, 5, small},
+		{config{"bbolt", false}, 4, small},
+		{config{"bbolt", true}, 4, small},
+		{config{"injected", false}, 4, inj},
+	}
+}
+
 func main() {
-	fmt.Println(database.ErrNotFound, runtime.NewRegistry() != nil)
+	vlib.Main("C14", "model_checking", func(c *vlib.Ctx) {
+		if err := initSystem(); err != nil {
+			c.EngineError("cannot initialise the database system: %v", err)
+			return
+		}
+		defer os.RemoveAll(rootDir)
+		c.Rule("BFS over histories of {subscribe(query, subscriber privileges), subscribe(reusing the query object of s0), cancel(s_i), registerHook(query, phase, pass|replace|veto), registerHook(reusing the query object of h0), cancelHook(h_i), " +
+			"put/delete/get through interfaces of different privileges, PushUpdate (injected database)} on keys inside/outside the subscribed prefix with values for which the where-condition holds or not and flags none/secret(/crownjewel); " +
+			"each history replayed on a fresh real database (hashmap, bbolt, runtime registry injected) and on a reference (lists of subscriptions and hooks, map of records); after every step feeds are drained, hook calls, result and raw storage compared; " +
+			"states de-duplicated on (reference state, controller's registered subscriptions and hooks, raw storage); deepest level check-only; " +
+			"non-trivial = histories whose last step delivered to a feed, called a hook, or cancelled a subscription or hook")
+		c.Assume("when several hooks are registered, each sees the record returned by the previous one (matching included); the harness's replacing hooks keep key, value and flags and only mark the record")
+		c.Assume("Interface.Delete is a get followed by a put of the record marked deleted: get-phase and put-phase hooks both apply to it")
+		c.Assume("results that do not involve a hook (not found, permission denied, storage errors) are taken from the reference store only to predict deliveries; a disagreement there is reported as an engine error, not as a C14 violation")
+		c.Assume("interfaces without cache; feed buffer (1000) never filled; the writer-vs-Cancel interleaving clause is decided by engine S")
+
+		if c.Replay != "" {
+			var w witness
+			if _, err := c.LoadReplay(&w); err != nil {
+				c.EngineError("replay: %v", err)
+				return
+			}
+			fmt.Printf("replaying on %v: %s\n", w.Config, histString(w.History))
+			r := runHistory(c, w.Config, w.Seed, w.History, true)
+			fmt.Printf("replayed: outcome=%s violation=%v\n", r.outcome, r.bad)
+			c.Add(1, int64(len(w.History)), 1)
+			return
+		}
+
+		budget := vlib.Pick(c, 150*time.Second, 25*time.Minute)
+		c.SetBudget(budget)
+		pls := plans(c)
+		for pi, pl := range pls {
+			explore(c, pi, pl)
+			if c.Expired() {
+				break
+			}
+		}
+	})
+}
+
+type node struct {
+	seed int
+	hist []op // without the seed's operations
+}
+
+func explore(c *vlib.Ctx, pi int, pl plan) {
+	cfg := pl.cfg
+	sds := seeds(cfg)
+	scen := fmt.Sprintf("%v depth %d keys %v queries %d privileges %d flags %d maxSubs %d maxHooks %d interfaces %d", cfg, pl.depth, pl.b.keys, pl.b.nQ, pl.b.nPriv, pl.b.nFlag, pl.b.maxSubs, pl.b.maxHooks, len(pl.b.ifaces))
+	c.Scenario(scen)
+	t0 := time.Now()
+	seen := map[string]struct{}{}
+	var frontier []node
+	full := func(n node, extra ...op) []op {
+		h := append([]op{}, sds[n.seed].ops...)
+		h = append(h, n.hist...)
+		return append(h, extra...)
+	}
+	for si := range sds {
+		r := runHistory(c, cfg, sds[si].name, full(node{seed: si}), false)
+		c.Add(0, int64(len(sds[si].ops)), 1)
+		if r.bad {
+			continue
+		}
+		if _, ok := seen[r.key]; !ok {
+			seen[r.key] = struct{}{}
+			frontier = append(frontier, node{seed: si})
+			c.Add(1, 0, 0)
+		}
+	}
+	var total int64
+	completed := 0
+	for depth := 1; depth <= pl.depth && len(frontier) > 0; depth++ {
+		if c.Expired() {
+			break
+		}
+		last := depth == pl.depth
+		type succ struct {
+			key string
+			n   node
+		}
+		results := make([][]succ, len(frontier))
+		var mu sync.Mutex
+		outc := map[string]int64{}
+		var nontriv, evals int64
+		var cut int32
+		c.ParallelFor(len(frontier), func(fi int) {
+			if fi%256 == 0 && c.Expired() {
+				atomic.StoreInt32(&cut, 1)
+			}
+			if atomic.LoadInt32(&cut) == 1 {
+				return
+			}
+			nd := frontier[fi]
+			// model-only replay to find the enabled operations
+			m := newModel(cfg)
+			for _, o := range full(nd) {
+				m.apply(o)
+			}
+			ops := m.enabled(pl.b)
+			local := map[string]int64{}
+			var out []succ
+			var nt int64
+			for _, o := range ops {
+				r := runHistory(c, cfg, sds[nd.seed].name, full(nd, o), false)
+				local[r.outcome]++
+				if r.nontriv {
+					nt++
+				}
+				if r.bad || last {
+					continue
+				}
+				out = append(out, succ{r.key, node{nd.seed, append(append([]op{}, nd.hist...), o)}})
+			}
+			mu.Lock()
+			for k, v := range local {
+				outc[k] += v
+			}
+			nontriv += nt
+			evals += int64(len(ops))
+			mu.Unlock()
+			results[fi] = out
+		})
+		for k, v := range outc {
+			c.OutcomeN(k, v)
+		}
+		c.NontrivialN(nontriv)
+		c.Add(0, evals, evals)
+		total += evals
+		if atomic.LoadInt32(&cut) == 1 {
+			c.NotExhaustive(fmt.Sprintf("%s: budget reached at depth %d", scen, depth))
+			break
+		}
+		completed = depth
+		var next []node
+		for _, rs := range results {
+			for _, s := range rs {
+				if _, ok := seen[s.key]; ok {
+					continue
+				}
+				seen[s.key] = struct{}{}
+				next = append(next, s.n)
+				if len(seen)%997 == 0 {
+					c.Sample(map[string]any{"config": cfg.String(), "seed": sds[s.n.seed].name, "history": histString(s.n.hist), "state": s.key})
+				}
+			}
+		}
+		c.Add(int64(len(next)), 0, 0)
+		fmt.Printf("[%s] depth %d: frontier %d, histories %d, new states %d (%.1fs)\n", cfg, depth, len(frontier), evals, len(next), time.Since(t0).Seconds())
+		frontier = next
+	}
+	c.Extra(fmt.Sprintf("plan%d", pi), fmt.Sprintf("%s: depth completed %d, histories %d, states %d", scen, completed, total, len(seen)))
 }
